@@ -102,3 +102,35 @@ prop("C16",
           "distinct values, sensors of 7 kinds, 35% restated key + second sensor, 15% late device key; distinct = distinct bytes; non-trivial = at least 12 bytes",
      assumptions=["map iteration order is irrelevant: maps are compared as key-sorted lists"],
      note=GPMF_NOTE)
+
+TA_NOTE = ("Trusted: Coq kernel + vm_compute; correspondence harness (log generator/mutator, session dumper). Modelled not verified: "
+           "bufio.Scanner line splitting, encoding/csv on one line, strconv.ParseFloat (plain decimals), Atoi, ParseBool, time.ParseDuration, "
+           "fmt.Sscanf %d, the end-point regexp (as a hand-written leftmost matcher), strings.TrimSpace on ASCII; inputs using other "
+           "spellings (exponents, non-ASCII white space ...) are counted as outside the model (verdict O).")
+
+prop("C02",
+     axioms="reals",
+     design_ref="DESIGN.md section 5 C02",
+     technique="Rocq refinement proof by induction over the history of rows and lap markers + in-Coq correspondence of whole decoded sessions",
+     text="C02_refines_spec: for every history of data rows and lap-end markers the decoder model yields exactly the specified laps (rows in "
+          "file order in the lap open at the time, marker i's number and duration on lap i, k markers -> k+1 laps, nothing dropped or duplicated, "
+          "metadata untouched), low markers rejected.  The model (Scanner, csv line, 35-column switch, cell parsers, comment parser) is tied to "
+          "the code by comparing the complete decoded session (every field of every record as bits/ns) on generated logs and an excerpt of the real log.",
+     rule="one case = one log (header = the real 27 columns or a random subset/permutation of the 35 headers, 0-14 rows, 0-5 markers at random positions "
+          "incl. adjacent/first/last and non-consecutive numbers, random '#' comments, CRLF 20%, no final newline 10%) + low-marker variants + real-log excerpt; "
+          "distinct = distinct text; non-trivial = at least 10 bytes",
+     assumptions=["well-formed = produced by the harness's log renderer"],
+     note=TA_NOTE)
+
+prop("C15",
+     axioms="reals",
+     design_ref="DESIGN.md section 5 C15",
+     technique="Rocq proof that the decoder model is total (no panic site, loops within fuel) and never drops a data line silently + in-Coq correspondence on mutated and random text",
+     text="C15_total: for arbitrary text the Gallina port of Decoder.Decode returns Ok or Err; C15_no_silent_loss: a non-comment line either sets the "
+          "columns, appends exactly one record, or is the cause of the error.  Tied to the code on mutated logs (deleted/duplicated fields, truncated "
+          "lines, colon-less comments, blank lines, stray quotes, unparsable values, unknown columns, malformed markers/end points, 70 kB lines) and random text; "
+          "a panic or timeout of the implementation is a violation.",
+     rule="one case = one text (18 named inputs; 80% single or double mutations of generated well-formed logs with 14 mutation kinds; 10% random bytes; 10% random "
+          "text over the syntax alphabet); distinct = distinct text; non-trivial = at least 10 bytes",
+     assumptions=["cells outside the modelled float grammar are verdict O (reported in evidence as outside_model)"],
+     note=TA_NOTE)
